@@ -56,18 +56,21 @@ class C11(ParserSessionProp):
                 return out
             # fault did not fire, or the call swallowed it: the result must be entirely correct
         elif rec.exception is not None:
-            # fault-free call raised: legitimate only if some sentence alone raises the same way
-            same = [a for a in alone if a[0] == 'exc' and a[1][0] == rec.exception[0]]
+            # fault-free call on well-formed input raised: legitimate only if the grammar callable itself
+            # raises for some category pair the sentences can reach (then the property's premise fails)
             bump(stats, 'evaluations')
-            if not same:
+            if not _grammar_raises(world, batch):
                 vio('returns', f'call raised {rec.exception[0]}: {rec.exception[1][:200]}',
                     exc=rec.exception[0])
+            else:
+                bump(stats, 'calls_excused_grammar_raises')
             return out
 
         if any(a[0] == 'exc' for a in alone):
             # the batch returned although a member alone raises
             bad = [a[1] for a in alone if a[0] == 'exc'][0]
-            vio('history_independent', f'batch returned but a member sentence alone raises {bad}', exc=bad[0])
+            if not _grammar_raises(world, batch):
+                vio('history_independent', f'batch returned but a member sentence alone raises {bad}', exc=bad[0])
             return out
 
         res = rec.responses
@@ -97,6 +100,18 @@ class C11(ParserSessionProp):
                     vio('aligned', f'position {pos} (sentence {sid}) carries words '
                         f'{[t.get("word") for t in toks][:8]}', where='tokens')
                     break
+            # the length limit is the configured one: longer sentences are skipped, others are searched
+            p = rec.per_sentence[pos]
+            if rec.contexts[pos] is not None:
+                too_long = world.n(sid) > cfg['max_length']
+                if too_long and (p is not None or not placeholder):
+                    vio('length_limit', f'sentence {sid} has {world.n(sid)} tokens, max_length={cfg["max_length"]}, '
+                        f'but it was searched / parsed', kind='not_skipped')
+                    break
+                if not too_long and p is None:
+                    vio('length_limit', f'sentence {sid} has {world.n(sid)} tokens, max_length={cfg["max_length"]}, '
+                        f'but it was skipped as too long', kind='skipped')
+                    break
             # history / schedule independence
             if not session.responses_equal(canon, alone[pos][1]):
                 a_placeholder = refparser.is_placeholder(alone[pos][2])
@@ -117,6 +132,22 @@ class C11(ParserSessionProp):
         if any(refparser.is_placeholder(r) for r in res) and any_parse:
             bump(stats, 'probe:failure_and_success_in_one_call')
         return out
+
+
+def _grammar_raises(world, batch):
+    """does the grammar callable itself raise for some category pair reachable from
+    the sentences' tags?  (evaluated with the reference chart, all tags admitted)"""
+    for sid in sorted(set(batch)):
+        n = world.n(sid)
+        admitted = [set(range(len(world.categories))) for _ in range(n)]
+        try:
+            refparser.viterbi(n, world.tag0[sid], world.dep0[sid], world.categories, admitted,
+                              world.memo, world.roots, 0.1)
+        except refparser.RefOverflow:
+            continue
+        except Exception:
+            return True
+    return False
 
 
 def real_pool_validation(prop, seed, want):
